@@ -586,7 +586,7 @@ def fam_multi(draw, max_components=40):
     apart, identical fragments several times, and small fillers."""
     k = draw(boundary_ints(2, max_components, extra=(8, 9, 12, 13, 14, 16, 17, 32, 33)))
     if draw(st.integers(0, 11)) == 0:
-        k = draw(st.sampled_from([330, 340, 400]))  # > 1000 atoms in hundreds of components
+        k = draw(st.sampled_from([480, 520, 600]))  # > 1000 atoms in hundreds of components
     zs, edges = [], []
     ncomp = 0
 
